@@ -94,6 +94,12 @@ class Ctx(object):
 def _init_worker():
     logging.disable(logging.CRITICAL)
     random.seed(0)
+    try:                                  # die with the parent (a killed check must not leave workers behind)
+        import ctypes
+        import signal
+        ctypes.CDLL("libc.so.6", use_errno=True).prctl(1, signal.SIGKILL)
+    except Exception:
+        pass
 
 
 def pmap(func, items, procs=None, chunksize=None):
